@@ -679,7 +679,20 @@ def synzero(ctx):
         # expressions that denote this iteration's syndrome: `*o` after the store, or an immutable local that is stored to `*o`
         stored = [k for k, st in enumerate(body) if st[0] == "assign" and is_var(st[1], ovar)]
         val_vars = {st[2][1] for st in body if st[0] == "assign" and is_var(st[1], ovar) and st[2][0] == "var"
-                    and any(l[0] == "let" and not l[2] and l[1].split("#")[0] == st[2][1] for l in body)}
+                    and any(l[0] == "let" and l[1].split("#")[0] == st[2][1] for l in body)}
+
+        def last_mod(name):
+            """index of the last top-level statement of the loop body that can still change local `name`"""
+            idx = -1
+            for k0, st0 in enumerate(body):
+                if st0[0] == "let" and st0[1].split("#")[0] == name:
+                    idx = max(idx, k0)
+                for x0 in T.stmt_walk([st0]):
+                    if x0[0] in ("assign", "assignop") and is_var(x0[1] if x0[0] == "assign" else x0[2], name):
+                        idx = max(idx, k0)
+                    if x0[0] == "expr" and x0[1][0] == "call" and x0[1][1].endswith(("add_assign", "mul_assign", "sub_assign")) and x0[1][2] and is_var(x0[1][2][0], name):
+                        idx = max(idx, k0)
+            return idx
 
         def is_zero(x):
             return isinstance(x, tuple) and ((x[0] == "adt" and x[1].endswith("galois::GF") and len(x[3]) == 1 and x[3][0][1] == ("lit", 0)) or x == ("lit", 0))
@@ -698,7 +711,7 @@ def synzero(ctx):
             for v, z in ((a, b2), (b2, a)):
                 if v[0] == "field" and v[2] == "0":
                     v = v[1]
-                if is_zero(z) and ((is_var(v, ovar) and stored and stored[0] < pos) or (v[0] == "var" and v[1] in val_vars)):
+                if is_zero(z) and ((is_var(v, ovar) and stored and stored[0] < pos) or (v[0] == "var" and v[1] in val_vars and last_mod(v[1]) < pos)):
                     return True
             return False
         all_sets = [st for st in T.stmt_walk(body) if st[0] in ("assign", "assignop") and is_var(st[1] if st[0] == "assign" else st[2], FLAG)]
@@ -745,6 +758,14 @@ def synzero(ctx):
                 if any(is_var(y, g) for y in T.sx_walk(x)) and not any(T.sx_calls(x, "Iterator::" + q) for q in ("skip", "take", "filter", "step_by"))]
         detev = {"terms": T.sx_show(gl[0][3], 160), "scale@": k_scale, "sum@": sums}
         okev = src_ok and k_scale is not None and len(sums) == 1 and k_scale < sums[0] and not any(st[0] in ("continue", "break") for st in T.stmt_walk(body))
+        if src_ok and k_scale is not None and not sums and id(body[k_scale]) in FUSED:
+            # fused pass: `let mut acc = GF(0)` right before, every scaled term added to it, nothing else touches it
+            acc = FUSED[id(body[k_scale])]
+            inits = [k for k, st in enumerate(body) if st[0] == "let" and st[2] and st[1].split("#")[0] == acc and st[3][0] == "adt" and st[3][1].endswith("galois::GF")
+                     and len(st[3][3]) == 1 and st[3][3][0][1] == ("lit", 0)]
+            touched = [st for st in T.stmt_walk(body) if st[0] in ("assign", "assignop") and is_var(st[1] if st[0] == "assign" else st[2], acc)]
+            okev = len(inits) == 1 and inits[0] < k_scale and not touched and not any(st[0] in ("continue", "break") for st in T.stmt_walk(body))
+            detev["fused-accumulator"] = acc
     obs.append(Ob(r, "pee-points", okev, "primitive_element_evaluation evaluates the word at alpha^1, alpha^2, ..: all coefficients (highest first) as running terms, scaled by 1, alpha, alpha^2, .. before each sum, every term summed", site=T.span_str(pe["span"]), detail=detev))
     # decode(): Ok only after every block returned Ok
     dsts, _ = T.fn_stmts(f, DEC)
@@ -1012,15 +1033,29 @@ def gather_scatter(ctx):
 CHIEN = "errorcode::decoding::chien_search"
 
 
+FUSED = {}      # id(loop statement) -> accumulator name, for scale loops that also sum (see scale_stmt)
+
+
 def scale_stmt(f, stl, var):
     """index of the top-level statement of `stl` that multiplies every entry of `var` by its power of the primitive
     element - `for (g, a) in var.iter_mut().zip(GF::primitive_powers()) { *g *= a }`, or a call of a private helper whose
     whole body is that loop; None if there is not exactly one"""
     def is_loop(st, v):
-        return st[0] == "for" and any(is_var(x, v) for x in T.sx_walk(st[2])) and bool(T.sx_calls(st[2], "GF::primitive_powers")) \
-            and bool(T.sx_calls(st[2], "iter_mut")) and bool(T.sx_calls(st[2], "Iterator::zip")) \
-            and not any(T.sx_calls(st[2], "Iterator::" + q) for q in ("skip", "take", "filter", "step_by", "rev")) \
-            and len(st[3]) == 1 and st[3][0][0] == "expr" and st[3][0][1][0] == "call" and st[3][0][1][1].endswith("mul_assign")
+        if not (st[0] == "for" and any(is_var(x, v) for x in T.sx_walk(st[2])) and bool(T.sx_calls(st[2], "GF::primitive_powers"))
+                and bool(T.sx_calls(st[2], "iter_mut")) and bool(T.sx_calls(st[2], "Iterator::zip"))
+                and not any(T.sx_calls(st[2], "Iterator::" + q) for q in ("skip", "take", "filter", "step_by", "rev"))):
+            return False
+        body = st[3]
+        if not (body and body[0][0] == "expr" and body[0][1][0] == "call" and body[0][1][1].endswith("mul_assign")):
+            return False
+        if len(body) == 1:
+            return True
+        # fused form: the freshly scaled term is also added to an accumulator in the same pass
+        if len(body) == 2 and body[1][0] == "expr" and body[1][1][0] == "call" and body[1][1][1].endswith("add_assign") and body[1][1][2][0][0] == "var" \
+                and len(st[1]) == 2 and is_var(body[1][1][2][1], st[1][0].split("#")[0]) and is_var(body[0][1][2][0], st[1][0].split("#")[0]):
+            FUSED[id(st)] = body[1][1][2][0][1]
+            return True
+        return False
     hits = []
     for k, st in enumerate(stl):
         if is_loop(st, var):
@@ -1068,6 +1103,9 @@ def root_cover(ctx):
         rp = range_parts(it)
         if rp and rp[0][0] == "lit" and rp[1][0] == "lit":
             lo, hi = rp[0][1], rp[1][1] - 1
+    by_powers = False
+    if lo is None and it[0] == "call" and it[1].endswith("Iterator::take") and it[2][1] == ("lit", 255) and it[2][0][0] == "call" and it[2][0][1].endswith("GF::primitive_powers") and not it[2][0][2]:
+        lo, hi, by_powers = 0, 254, True        # the first 255 powers of the primitive element = exponents 0..=254
     obs.append(Ob(r, "all-exponents", (lo, hi) == (0, 254), "the root search runs over the exponents 0..=254 - all 255 non-zero elements of GF(256) (found %s..=%s)" % (lo, hi), site=lp[4], detail=T.sx_show(lp[2])))
     iv = lp[1][0].split("#")[0] if len(lp[1]) == 1 else None
     body = lp[3]
@@ -1087,7 +1125,9 @@ def root_cover(ctx):
                 and not any(T.sx_calls(a, "Iterator::" + q) for q in ("skip", "take", "filter", "step_by"))
             is_zero = z[0] == "adt" and z[1].endswith("galois::GF") and len(z[3]) == 1 and z[3][0][1] == ("lit", 0)
             pushes = [x for s2 in st[2] for e in T.stmt_exprs(s2) for x in T.sx_calls(e, "Vec::push")]
-            okp = len(pushes) == 1 and pushes[0][2][1][0] == "call" and pushes[0][2][1][1].endswith("GF::primitive_power") and is_var(pushes[0][2][1][2][0], iv) and not st[3]
+            okp = len(pushes) == 1 and not st[3] and (
+                (pushes[0][2][1][0] == "call" and pushes[0][2][1][1].endswith("GF::primitive_power") and is_var(pushes[0][2][1][2][0], iv) and not by_powers)
+                or (by_powers and is_var(pushes[0][2][1], iv)))
             det = T.sx_show(c, 160)
             if is_sum and is_zero and okp:
                 okt = True
